@@ -9,6 +9,9 @@ pub mod c05;
 pub mod c06;
 pub mod c07;
 pub mod c08;
+pub mod c09;
+pub mod c10;
+pub mod c11;
 pub mod c12;
 pub mod c13;
 pub mod c14;
@@ -20,6 +23,7 @@ pub mod c19;
 pub mod c20;
 pub mod hard;
 pub mod mc;
+pub mod san;
 
 pub fn run(ctx: &Ctx, prop: &str) -> bool {
     match prop {
@@ -31,6 +35,9 @@ pub fn run(ctx: &Ctx, prop: &str) -> bool {
         "C06" => c06::run(ctx),
         "C07" => c07::run(ctx),
         "C08" => c08::run(ctx),
+        "C09" => c09::run(ctx),
+        "C10" => c10::run(ctx),
+        "C11" => c11::run(ctx),
         "C12" => c12::run(ctx),
         "C13" => c13::run(ctx),
         "C14" => c14::run(ctx),
@@ -55,6 +62,9 @@ pub fn replay(ctx: &Ctx, prop: &str, kind: &str, case: &Value) -> bool {
         "C06" => c06::replay(ctx, case),
         "C07" => c07::replay(ctx, case),
         "C08" => c08::replay(ctx, case),
+        "C09" => c09::replay(ctx, case),
+        "C10" => c10::replay(ctx, case),
+        "C11" => c11::replay(ctx, case),
         "C12" => c12::replay(ctx, case),
         "C13" => c13::replay(ctx, kind, case),
         "C14" => c14::replay(ctx, case),
